@@ -244,7 +244,7 @@ inductive Out where
   | bool (b : Bool)
   | names (ns : List Name)
   | err (e : FsErr)
-  deriving Repr, Inhabited
+  deriving DecidableEq, Repr, Inhabited
 
 def step (cfg : FsCfg) (s : Dir) : Op → Dir × Out
   | .save p c => match saveFile cfg s p c with
